@@ -13,7 +13,8 @@ RULE = ("exhaustive: every profile over alternatives {1..m}, m <= 3, made of 1 o
         "inferred from the ballots. random: m <= 7 (thorough <= 9), arbitrary ids in shuffled insertion order, all four "
         "ordinal types, planted patterns (two alternatives tied in every ballot, an alternative nobody ranks, two "
         "alternatives never ranked together, Condorcet winner / weak winner / cycle), multiplicities up to 10^12, and "
-        "the type guards on non-ordinal data_type values. Observables: the three tables as sorted (a,b,value) lists, "
+        "the type guards on non-ordinal data_type values; every fifth random instance is written as PrefLib text and "
+        "read by OrdinalInstance.parse_str, the others are built by direct field assignment. Observables: the three tables as sorted (a,b,value) lists, "
         "has_condorcet for both flags, borda scores per alternative (missing = 0), order_to_pwg re-read into "
         "(num_alternatives, sorted alternative lines, count line, sorted pair lines). "
         "non-trivial = >= 2 alternatives, >= 2 distinct ballots, some multiplicity > 1")
@@ -182,7 +183,8 @@ def random_case(rng, idx, mmax):
         dt = rng.choice([4, 5, 6])       # non-ordinal label: every function must refuse
         guard = 1
     names = {a: _name(rng, a) for a in alts}
-    return case("c07.all", payload(alts, prof, dt, names), m=m, pattern=pattern, guard=guard)
+    parse = 1 if (not guard and idx % 5 == 0) else 0      # every fifth instance goes through the real parser
+    return case("c07.all", payload(alts, prof, dt, names), m=m, pattern=pattern, guard=guard, parse=parse)
 
 
 # ------------------------------------------------------------------ implementation side
@@ -200,6 +202,21 @@ def build(pl):
         inst.multiplicity[t] = k
     inst.num_unique_orders = len(inst.orders)
     inst.data_type = DT[dt] if dt < len(DT) else "xyz"
+    return inst
+
+
+def build_via_parser(pl):
+    """the same instance through the public API: PrefLib text -> OrdinalInstance.parse_str"""
+    from preflibtools.instances import OrdinalInstance
+    an, na, nv, mult, dt = pl
+    lines = ["# FILE NAME: x." + DT[dt], "# TITLE: t", "# DATA TYPE: " + DT[dt],
+             "# NUMBER ALTERNATIVES: %d" % na, "# NUMBER VOTERS: %d" % nv, "# NUMBER UNIQUE ORDERS: %d" % len(mult)]
+    for a, nm in an:
+        lines.append("# ALTERNATIVE NAME %d: %s" % (a, proto.untext(nm)))
+    for o, k in mult:
+        lines.append("%d: %s" % (k, ",".join(str(c[0]) if len(c) == 1 else "{" + ",".join(map(str, c)) + "}" for c in o)))
+    inst = OrdinalInstance()
+    inst.parse_str("\n".join(lines) + "\n", DT[dt])
     return inst
 
 
@@ -264,13 +281,14 @@ def impl(c):
         return _wrap(guarded(P.has_condorcet, inst, weak_condorcet=bool(pl[1])), lambda v: 1 if v is True else (0 if v is False else {"bad": repr(v)}))
     m = len(pl[0])
     res = {}
-    res["pairwise"] = _wrap(guarded(P.pairwise_scores, build(pl)), _table)
-    res["copeland"] = _wrap(guarded(P.copeland_scores, build(pl)), _table)
+    mk = build_via_parser if c["tags"].get("parse") else build
+    res["pairwise"] = _wrap(guarded(P.pairwise_scores, mk(pl)), _table)
+    res["copeland"] = _wrap(guarded(P.copeland_scores, mk(pl)), _table)
     bl = lambda v: 1 if v is True else (0 if v is False else {"bad": repr(v)})
-    res["condorcet"] = _wrap(guarded(P.has_condorcet, build(pl)), bl)
-    res["condorcet_weak"] = _wrap(guarded(P.has_condorcet, build(pl), weak_condorcet=True), bl)
-    res["borda"] = _wrap(guarded(P.borda_scores, build(pl)), _borda)
-    res["pwg"] = _wrap(guarded(order_to_pwg, build(pl)), lambda s: _parse_pwg(s, m))
+    res["condorcet"] = _wrap(guarded(P.has_condorcet, mk(pl)), bl)
+    res["condorcet_weak"] = _wrap(guarded(P.has_condorcet, mk(pl), weak_condorcet=True), bl)
+    res["borda"] = _wrap(guarded(P.borda_scores, mk(pl)), _borda)
+    res["pwg"] = _wrap(guarded(order_to_pwg, mk(pl)), lambda s: _parse_pwg(s, m))
     if op == "c07.all":
         return res
     return res[op.split(".")[1]]
@@ -363,6 +381,8 @@ def stats(c, r, m):
     an, na, nv, mult, dt = pl
     alts = [a for a, _ in an]
     out = ["m=%d" % len(an) if len(an) <= 7 else "m>7", "type=%s" % DT[min(dt, 6)], "ballots=%d" % len(mult)]
+    if c["tags"].get("parse"):
+        out.append("instance built by OrdinalInstance.parse_str")
     ranked = {a for o, _ in mult for cl in o for a in cl}
     if len(ranked) < len(alts):
         out.append("has an alternative nobody ranks")
